@@ -59,4 +59,11 @@ theorem failed_waiter_returns_error (s : Waiters.St) (i c r : Nat) (h : s.call i
   refine ⟨by simp [Waiters.step, h, hc], ?_⟩
   intro s' h'; simp [Waiters.step, h']
 
+
+/-- T2 structure fact: the write helper that keepalive's ping calls WHILE HOLDING the client read lock takes no lock itself (a second,
+recursive read lock would deadlock against a recovery that asks for the write lock in between) -/
+theorem write_helper_lock_free :
+    Gen.seq_client_write = ["c.conn.Write"] := by
+  decide
+
 end OAP.C06
